@@ -232,6 +232,14 @@ impl LruManager {
             crate::StorageError::Cache(format!("invalid LRU file: {}", path.display()))
         })?;
 
+        // The MD5 only proves the file is intact, not that its links are sane.
+        if !links_are_valid(&header, &entries) {
+            return Err(crate::StorageError::Cache(format!(
+                "invalid LRU file (corrupt links): {}",
+                path.display()
+            )));
+        }
+
         // Rebuild the key map and free list
         self.header = header;
         self.key_map.clear();
@@ -479,6 +487,37 @@ impl LruManager {
 
         self.header.mru_head = idx;
     }
+}
+
+/// Check that a loaded table is a well-formed doubly-linked list.
+///
+/// Walking `next` from the LRU tail must reach the MRU head, every index must
+/// be in range and every `prev` must point back at the entry we came from
+/// (which also rules out cycles). Entries that are not on the list must be
+/// unused, because `touch` and `remove` unlink an entry through its own
+/// `prev`/`next` fields.
+fn links_are_valid(header: &LruFileHeader, entries: &[LruFileEntry]) -> bool {
+    let mut on_list = vec![false; entries.len()];
+    let mut prev = LRU_SENTINEL;
+    let mut idx = header.lru_tail;
+
+    while idx != LRU_SENTINEL {
+        let Some(entry) = entries.get(idx as usize) else {
+            return false;
+        };
+        if on_list[idx as usize] || entry.prev != prev {
+            return false;
+        }
+        on_list[idx as usize] = true;
+        prev = idx;
+        idx = entry.next;
+    }
+
+    header.mru_head == prev
+        && entries
+            .iter()
+            .zip(&on_list)
+            .all(|(entry, &linked)| linked || !entry.is_active())
 }
 
 /// Statistics from a single LRU maintenance cycle.
